@@ -9,6 +9,7 @@ setting ``argparse.open`` shadows the builtin for argparse only.  ``sys.stdin``,
 from __future__ import annotations
 
 import argparse
+import builtins
 import io
 import os
 import sys
@@ -58,14 +59,33 @@ class CapturedText(io.StringIO):
         self.final: Optional[str] = None
         self.closed_by_cli = False
         self._enc = encoding
+        self._errors = "strict"
+        self.buffer = _BinaryView(self)
 
     @property
     def encoding(self) -> str:  # type: ignore[override]
         return self._enc
 
+    @property
+    def errors(self) -> str:  # type: ignore[override]
+        return self._errors
+
+    def reconfigure(self, *, encoding: Optional[str] = None, errors: Optional[str] = None, **_kw: Any) -> None:
+        """As io.TextIOWrapper.reconfigure: a tool may fix its own output encoding."""
+        if encoding is not None:
+            self._enc = encoding
+        if errors is not None:
+            self._errors = errors
+
     def write(self, text: str) -> int:
-        text.encode(self._enc)  # raises UnicodeEncodeError exactly where a real stream would
-        return super().write(text)
+        # raises UnicodeEncodeError exactly where a real stream would; what an error handler
+        # substitutes is what ends up in the file
+        data = text.encode(self._enc, self._errors)
+        return super().write(text if self._errors == "strict" else data.decode(self._enc, "replace"))
+
+    def _write_bytes(self, data: bytes) -> int:
+        super().write(data.decode("utf-8", "replace"))
+        return len(data)
 
     def close(self) -> None:
         self.final = self.getvalue()
@@ -76,17 +96,52 @@ class CapturedText(io.StringIO):
         return self.final if self.final is not None else self.getvalue()
 
 
+class _BinaryView:
+    """``stream.buffer`` of a captured text stream: bytes written here bypass the encoder."""
+
+    def __init__(self, owner: "CapturedText") -> None:
+        self._owner = owner
+
+    def write(self, data: Any) -> int:
+        return self._owner._write_bytes(bytes(data))
+
+    def flush(self) -> None:
+        pass
+
+    def writable(self) -> bool:
+        return True
+
+
 class FakeFS:
-    def __init__(self, files: Dict[str, bytes], chunks: List[int], out_encoding: str = "utf-8") -> None:
+    def __init__(self, files: Dict[str, bytes], chunks: List[int], out_encoding: str = "utf-8", virtual: Optional[List[str]] = None) -> None:
         self.files = dict(files)
         self.chunks = chunks
         self.out_encoding = out_encoding
         self.outputs: Dict[str, CapturedText] = {}
         self.raws: List[ShortReadRaw] = []
+        # the names that live in this file system (whether or not a file exists there yet);
+        # when ``virtual`` is given, anything else is the real file system's business
+        self.virtual = None if virtual is None else set(virtual) | set(files)
+        self.real_open = io.open
 
-    def open(self, name: str, mode: str = "r", buffering: int = -1, encoding: Optional[str] = None, errors: Optional[str] = None, *a: Any, **k: Any) -> Any:
+    def open(self, name: Any, mode: str = "r", buffering: int = -1, encoding: Optional[str] = None, errors: Optional[str] = None, *a: Any, **k: Any) -> Any:
+        if not isinstance(name, int):
+            name = os.fspath(name)
+        if self.virtual is not None and name not in self.virtual:
+            return self.real_open(name, mode, buffering, encoding, errors, *a, **k)
         if "w" in mode or "a" in mode or "+" in mode or "x" in mode:
             out = CapturedText(encoding or self.out_encoding)
+            if errors:
+                out.reconfigure(errors=errors)
+            if "b" in mode:
+                out = out.buffer  # type: ignore[assignment]
+                self.outputs[name] = out._owner  # type: ignore[attr-defined]
+                old = self.files.get(name)
+                if old is not None and "w" not in mode:
+                    if "x" in mode:
+                        raise FileExistsError(17, "File exists", name)
+                    out.write(old)
+                return out
             old = self.files.get(name)
             if old is not None and "w" not in mode:
                 # a pre-existing file opened without truncation keeps its content
@@ -119,13 +174,14 @@ def run_cli(
     environ: Optional[Dict[str, Optional[str]]] = None,
     module: Any = None,
     out_encoding: str = "utf-8",
+    virtual: Optional[List[str]] = None,
 ) -> Dict[str, Any]:
     """Run ``main()`` in-process on the fake file system / stdio.
 
     Returns status, stdout, stderr, output files, whether an exception escaped
     (= traceback + status 1 in a real process) and its class.
     """
-    fs = FakeFS(files, chunks or [], out_encoding)
+    fs = FakeFS(files, chunks or [], out_encoding, virtual)
     raw_in = ShortReadRaw(stdin_bytes, chunks or [])
     stdin = io.TextIOWrapper(io.BufferedReader(raw_in, buffer_size=16), encoding="utf-8", errors=stdin_errors)
     stdout, stderr = CapturedText(out_encoding), CapturedText("utf-8")
@@ -134,6 +190,7 @@ def run_cli(
         stdout.isatty = lambda: True  # type: ignore[method-assign]
         stderr.isatty = lambda: True  # type: ignore[method-assign]
     saved = (sys.stdin, sys.stdout, sys.stderr, sys.argv)
+    saved_builtin_open, saved_io_open = builtins.open, io.open
     saved_env = {k: os.environ.get(k) for k in (environ or {})}
     mod_had_open = module is not None and "open" in vars(module)
     mod_saved_open = vars(module).get("open") if module is not None else None
@@ -148,6 +205,11 @@ def run_cli(
         argparse.open = fs.open  # type: ignore[attr-defined]
         if module is not None:
             module.open = fs.open  # an open() written in the CLI module itself sees the same file system
+        if virtual is not None:
+            # ... and so does every other way of opening a file by name (pathlib, codecs, helpers
+            # in other modules): the virtual names are served here, all other names by the real open
+            builtins.open = fs.open  # type: ignore[assignment]
+            io.open = fs.open  # type: ignore[assignment]
         for k, v in (environ or {}).items():
             if v is None:
                 os.environ.pop(k, None)
@@ -169,6 +231,8 @@ def run_cli(
             status = 1
             tb_text = "".join(traceback.format_exception(exc))
     finally:
+        builtins.open = saved_builtin_open
+        io.open = saved_io_open  # type: ignore[assignment]
         sys.stdin, sys.stdout, sys.stderr, sys.argv = saved
         for k, v in saved_env.items():
             if v is None:
